@@ -247,26 +247,27 @@ fn counts_of_field(s: &str) -> (Vec<u64>, Vec<u64>) {
 
 fn unroll_small(t: &BasicTape) -> bool {
     let (_, l, r) = t.verif_parts();
-    l.iter().chain(r.iter()).all(|(_, n)| *n < 64)
+    // explicit up to 63 cells per block; hashed (length + FNV of the cell list) up to 100000 cells in all
+    let total: u128 = l.iter().chain(r.iter()).map(|(_, n)| *n as u128).sum();
+    total <= 100_000
 }
 
 fn unroll_sides(t: &BasicTape) -> String {
     let (_, l, r) = t.verif_parts();
-    let un = |s: &[(u64, u64)]| {
-        s.iter()
-            .flat_map(|(c, n)| std::iter::repeat(*c).take(*n as usize))
-            .map(|c| c.to_string())
-            .collect::<Vec<_>>()
-            .join(",")
-    };
-    // cross-check with the code's own unroll(): left reversed + scan + right
+    let explicit = l.iter().chain(r.iter()).all(|(_, n)| *n < 64);
+    // the code's own unroll(): left reversed + scan + right
     let u = t.unroll();
     let ll: usize = l.iter().map(|(_, n)| *n as usize).sum();
+    if u.len() <= ll || u[ll] != t.scan {
+        return format!("BAD-UNROLL:len={}:left={}", u.len(), ll);
+    }
     let lpart: Vec<String> = u[..ll].iter().rev().map(|c| c.to_string()).collect();
     let rpart: Vec<String> = u[ll + 1..].iter().map(|c| c.to_string()).collect();
-    assert!(u[ll] == t.scan);
-    let _ = un;
-    format!("{}/{}", lpart.join(","), rpart.join(","))
+    if explicit {
+        format!("{}/{}", lpart.join(","), rpart.join(","))
+    } else {
+        format!("H{}:{}/{}:{}", lpart.len(), fnv(&lpart.join(",")), rpart.len(), fnv(&rpart.join(",")))
+    }
 }
 
 fn tape_record(prev_sig: &Signature, t: &BasicTape, stepped: u64) -> String {
